@@ -57,8 +57,9 @@ add("C03", "model_checking",
     "MC_Memmem: for every needle (0..5/6 symbols) x haystack x CPU-feature outcome x prefilter setting x ranker, the composed loop-level model (routing, Rabin-Karp below the "
     "thresholds, packed pair with its length guard, Two-Way small/large period with the prefilter state threaded through) returns FindSub; MC_SubOracle emits every (needle, haystack) "
     "pair over {0,1}, {0,1,2} and binary-with-one-foreign-byte with its oracle values and checks the lifting lemma; vectors are executed 1:1, padded (>= 16 / >= 64 byte routes) and "
-    "block-substituted (needles > 32 bytes) on memmem::find, Finder::find, FinderBuilder under forced AVX2/SSE2/fallback. The routing constants are scaled in the model; the real "
-    "constants are reached by the lifted replays.", "DESIGN.md 4 C03", TRUST + "; lifting lemma checked for s in {2,3} on bounded domains", SUB_TECH)
+    "block-substituted (block a -> pad^q a pad^(s-1-q), needles > 32 bytes) on memmem::find, Finder::find, FinderBuilder under forced AVX2/SSE2/fallback, on the simd128 copy and "
+    "(stratified sample) on NEON under Miri, each also on boundary prefixes of the haystack (TruncLemma). The routing constants are scaled in the model; the real constants are reached "
+    "by the lifted replays and by recorded executions (structured, tail and stray families) validated by TLC.", "DESIGN.md 4 C03", TRUST + "; lifting lemma checked for s in {2,3} on bounded domains", SUB_TECH)
 add("C04", "model_checking", "As C03 for the reverse searchers (Two-Way reverse suffixes/shift, reverse Rabin-Karp, SearcherRev routing): result = RFindSub; replay on memmem::rfind, FinderRev::rfind, build_reverse.",
     "DESIGN.md 4 C04", TRUST, SUB_TECH)
 add("C05", "model_checking",
@@ -71,24 +72,28 @@ add("C06", "model_checking",
     "prefix; each complete behaviour replayed on Memchr/Memchr2/Memchr3 and One/Two/Three::iter of every backend (stretched too), with size_hint, clone futures and count().",
     "DESIGN.md 4 C06", TRUST, "TLA+ action spec of generic::Iter with history variable; all call orders replayed")
 add("C08", "model_checking", "MC_Memmem with Parts iter/riter: FindIter (pos, prefilter state carried across next()) and FindRevIter (pos: Option) equal GreedyFwd/GreedyRev for all inputs/configs, "
-    "empty needle yields every offset; replay drives find_iter/rfind_iter to exhaustion (+2 calls) checking size_hint at every step.", "DESIGN.md 4 C08", TRUST, SUB_TECH)
+    "empty needle yields every offset; replay drives find_iter/rfind_iter to exhaustion (+2 calls) checking size_hint at every step, also after into_owned() in the middle of an iteration.", "DESIGN.md 4 C08", TRUST, SUB_TECH)
 add("C09", "model_checking", "Differential S->I: one TLC vector set executed in every configuration (forced AVX2/SSE2/fallback, features alloc/none, +avx2 at compile time, logging, release, "
     "rewritten simd128 copy; Miri aarch64/s390x/i686 as optional vehicles); all answers equal the model's.", "DESIGN.md 4 C09",
     TRUST + "; emulated wasm intrinsics; no x86-64-without-SSE2 build possible here", "configuration matrix replay of TLC vectors")
 add("C10", "model_checking", "MC_Memmem with the ranker as a nondeterministic function (all 27 rankers on a 3-letter alphabet, all 4 on binary), both prefilter settings, every CPU outcome: results and "
-    "complete find_iter sequences equal the oracle for all; replay under a ranker table x Prefilter::{None,Auto} x forced dispatch, lifted so needles exceed 32 bytes.", "DESIGN.md 4 C10", TRUST, SUB_TECH)
+    "complete find_iter sequences equal the oracle for all; replay under a ranker table x Prefilter::{None,Auto} x forced dispatch, lifted so needles exceed 32 bytes; recorded executions "
+    "(structured / tail / stray families, default + identity + reversed + needle-bytes-commonest rankers, prefilter on and off) validated by TLC.", "DESIGN.md 4 C10", TRUST, SUB_TECH)
 add("C11", "model_checking", "MC_PackedPair: all needles x every ordered offset pair x all haystack contents; prefilter <= FindSub, None => absent, candidate has both pair bytes, = F-spec; both mask kinds; "
-    "replayed on the real generic code at VB=2,4 and padded on SSE2/AVX2/portable.", "DESIGN.md 4 C11", TRUST + "; NEON/simd128 prefilters via optional vehicles", "TLA+ L-model of packed-pair prefilter + exact replay on scaled generic code")
-add("C12", "model_checking", "MC_TwoWay/MC_SubBlocks1/MC_PackedPair step the building blocks over all needles x haystacks over 2/3-letter alphabets; replay on twoway/rabinkarp/shiftor/packedpair finders (1:1, lifted).",
+    "replayed on the real generic code at VB=2,4 and padded on SSE2/AVX2/portable; the meta searcher's private short-haystack fallback (searcher.rs) is reached through searches with "
+    "needles > 32 bytes (lifted vectors with boundary truncations, recorded tail family) on host, simd128 copy and NEON under Miri.", "DESIGN.md 4 C11", TRUST + "; NEON/simd128 prefilters via optional vehicles", "TLA+ L-model of packed-pair prefilter + exact replay on scaled generic code")
+add("C12", "model_checking", "MC_TwoWay/MC_SubBlocks1/MC_PackedPair step the building blocks over all needles x haystacks over 2/3-letter alphabets; replay on twoway/rabinkarp/shiftor/packedpair finders (1:1, lifted); constructors probed with out-of-range / equal pair offsets and over-long Shift-Or needles (must return None).",
     "DESIGN.md 4 C12", TRUST, SUB_TECH)
 add("C13", "model_checking", "Linear-work invariants on the cost-annotated L-models (exhaustive on bounded domains) + Trace_Cost validation of the hooks' deterministic step counters on adversarial "
-    "families up to 2^18 (thorough 2^22) bytes. An asymptotic claim is decided only up to explored sizes/families.", "DESIGN.md 4 C13, 8", TRUST + "; counters from cfg(memchr_verif) hooks", "cost-annotated TLA+ models + TLC trace validation of recorded step counters")
+    "families up to 2^18 (thorough 2^22) bytes, and on needle-only records (every needle shape, its mirror image, shapes with a defect in the middle; up to 16384 bytes) for the cost of "
+    "building forward and reverse finders. An asymptotic claim is decided only up to explored sizes/families.", "DESIGN.md 4 C13, 8", TRUST + "; counters from cfg(memchr_verif) hooks", "cost-annotated TLA+ models + TLC trace validation of recorded step counters")
 add("C14", "model_checking", "bad/panic flags of all L-models are invariants; all vector families executed with debug assertions and overflow checks under catch_unwind; packed-pair panic exactly below "
     "min_haystack_len; MC_PrefilterState explores every is_effective/update sequence at a scaled counter width (NoOverflow) and the real-width witness (> 2^29 prefilter calls on a 5.4 GB "
     "haystack) of the genuine defect found with this machinery (u32 multiplication overflow, repaired by /repo commit df0e36e, see known_findings.json) is re-run on every check.",
     "DESIGN.md 4 C14, 11.3a", TRUST + "; the 5.4 GB witness needs >= 12 GB of free memory (otherwise listed as skipped)", "TLA+ NoPanic/NoOverflow invariants + replay in checked builds + real-width overflow witness")
 add("C15", "model_checking", "Ifunc: every interleaving of 3 threads x 2 calls with Relaxed semantics (modification order + views), all CPU outcomes, liveness under WF; native racing first calls in fresh processes "
-    "and shared finders validated by TLC (Trace_Lib); dispatcher events checked against the per-thread projection.", "DESIGN.md 4 C15", TRUST + "; real schedules sampled", "TLA+ action spec with relaxed-memory views + trace validation of racing executions")
+    "and shared finders (short needles; and a > 32-byte needle whose adaptive prefilter one thread exhausts while the others are mid-search) validated by TLC (Trace_Lib); dispatcher events "
+    "checked against the per-thread projection; the same scenario under host Miri with seed-controlled schedules (optional vehicle).", "DESIGN.md 4 C15", TRUST + "; real schedules sampled", "TLA+ action spec with relaxed-memory views + trace validation of racing executions")
 add("C16", "model_checking", "MC_MemmemObjects: every order of find/next/clone/clone_next/into_owned/drop_buffer up to Depth; history independence and clone/owned futures; replayed on real objects with the "
     "needle buffer really overwritten and dropped.", "DESIGN.md 4 C16", TRUST, "TLA+ action spec of finder/iterator objects; behaviours replayed")
 add("C17", "exploration", "Counting global allocator armed per call over every oracle vector (1:1, lifted, every dispatch level) and every iterator behaviour; the spec contributes the operation classification "
